@@ -7,6 +7,7 @@ In-spec joint actions are `action : List Nat` with every component `< 4`; they r
 -/
 import JumanjiModel.Env.Cleaner.Lemmas
 import JumanjiModel.Env.Cleaner.BoundsLemmas
+import JumanjiModel.Env.Cleaner.EpisodeLemmas
 open Jm Cleaner
 
 namespace Props.CleanerEx
@@ -136,6 +137,67 @@ theorem cleaner_reward_telescopes (cfg : Cfg) (s : State) (a : List Int) :
 theorem cleaner_objective_telescopes (cfg : Cfg) (s : State) (a : List Int) :
     objective cfg (step cfg s a).1 = objective cfg s + ((step cfg s a).2.reward).sum :=
   Cleaner.objective_telescopes cfg s a
+
+/-- whole runs: the return (sum of the step rewards) of ANY list of joint actions played from ANY state is the
+increase of the potential (clean tiles − penalty · steps); the step counter advances by the number of steps.
+No hypotheses: out-of-spec actions, illegal moves and steps after LAST included. -/
+theorem cleaner_episode_return (cfg : Cfg) (s : State) (as : List (List Int)) :
+    runReturn cfg s as = potential cfg (runState cfg s as) - potential cfg s ∧
+    (runState cfg s as).stepCount = s.stepCount + (as.length : Int) :=
+  ⟨Cleaner.run_return_potential cfg s as, Cleaner.run_stepCount cfg s as⟩
+
+/-- return = (tiles cleaned during the run) − penalty · (number of steps), the cleaned tiles being the
+increase of the number of CLEAN tiles; any state, any list of joint actions -/
+theorem cleaner_episode_return_explicit (cfg : Cfg) (s : State) (as : List (List Int)) :
+    runReturn cfg s as
+      = ((countTiles CLEAN (runState cfg s as).grid : Nat) : Rat) - ((countTiles CLEAN s.grid : Nat) : Rat)
+          - cfg.penalty * (as.length : Rat) :=
+  Cleaner.run_return_explicit cfg s as
+
+/-- the difference above is a genuine count: clean tiles never decrease along a run, the increase is the
+number of cells whose value differs between the first and the last grid (each of them was not CLEAN and is
+CLEAN now), and the return is that number − penalty · steps; any state, any list of joint actions -/
+theorem cleaner_episode_return_cleaned (cfg : Cfg) (s : State) (as : List (List Int)) :
+    countTiles CLEAN s.grid ≤ countTiles CLEAN (runState cfg s as).grid ∧
+    countTiles CLEAN (runState cfg s as).grid
+      = countTiles CLEAN s.grid + countDiff s.grid (runState cfg s as).grid ∧
+    runReturn cfg s as
+      = ((countDiff s.grid (runState cfg s as).grid : Nat) : Rat) - cfg.penalty * (as.length : Rat) :=
+  ⟨Cleaner.run_clean_le cfg s as, Cleaner.run_clean_count cfg s as, Cleaner.run_return_cleaned cfg s as⟩
+
+/-- on a consistent state and in-spec joint actions (one component in `0..3` per agent, legal or not) the
+cleaned tiles are the decrease of the number of DIRTY tiles (a genuine decrease), and every state of the run
+is consistent -/
+theorem cleaner_episode_return_dirty (cfg : Cfg) (s : State) (hC : Consistent cfg s) (as : List (List Nat))
+    (hA : InSpec cfg as) :
+    Consistent cfg (runState cfg s (toInt as)) ∧
+    countTiles DIRTY (runState cfg s (toInt as)).grid ≤ countTiles DIRTY s.grid ∧
+    runReturn cfg s (toInt as)
+      = ((countTiles DIRTY s.grid - countTiles DIRTY (runState cfg s (toInt as)).grid : Nat) : Rat)
+          - cfg.penalty * (as.length : Rat) :=
+  ⟨Cleaner.run_consistent hC as hA, Cleaner.run_return_dirty hC as hA⟩
+
+/-- from a freshly generated state (step counter 0, only the start tile clean) the return of any run is the
+objective recomputed from its final state: clean tiles − 1 − penalty · steps -/
+theorem cleaner_episode_return_from_reset (cfg : Cfg) (s : State) (as : List (List Int))
+    (h0 : s.stepCount = 0) (h1 : countTiles CLEAN s.grid = 1) :
+    runReturn cfg s as = objective cfg (runState cfg s as) :=
+  Cleaner.run_return_from_reset cfg s as h0 h1
+
+/-- the 2×3 example grid as the generator would deliver it: only the start tile clean, agents on it -/
+def cleanerExReset : State :=
+  (Cleaner.reset CleanerEx.cfg { grid := [[1, 0, 2], [0, 0, 0]], agents := [(0, 0), (0, 0)],
+                                 actionMask := [], stepCount := 0 }).1
+/-- the hypotheses of `cleaner_episode_return_from_reset` (and of `cleaner_episode_return_dirty`) are
+satisfiable -/
+example : cleanerExReset.stepCount = 0 ∧ countTiles CLEAN cleanerExReset.grid = 1 ∧ Consistent CleanerEx.cfg cleanerExReset ∧
+    InSpec CleanerEx.cfg [[1, 2], [2, 1], [0, 1]] := by decide +kernel
+/-- a concrete run: agents go right/down, down/right, then agent 0 up again and agent 1 right: 4 tiles cleaned
+in 3 steps with penalty 1/2: return 4 − 3/2 = 5/2 = objective of the final state -/
+example : runReturn CleanerEx.cfg cleanerExReset (toInt [[1, 2], [2, 1], [0, 1]]) = 5/2 ∧
+    (runState CleanerEx.cfg cleanerExReset (toInt [[1, 2], [2, 1], [0, 1]])).grid = [[1, 1, 2], [1, 1, 1]] ∧
+    objective CleanerEx.cfg (runState CleanerEx.cfg cleanerExReset (toInt [[1, 2], [2, 1], [0, 1]])) = 5/2 := by
+  decide +kernel
 end Props.C08
 
 namespace Props.C09
